@@ -20,7 +20,7 @@ EXPLANATION = (
 )
 TRUSTED = _c02.TRUSTED + ["symbolic decimal-string model of str(int), slicing, concatenation, rstrip('0'), digit comparisons (pysym/strings.py)"]
 ASSUMPTIONS = ["binary exponent and sign concrete per obligation; digit count dps concrete"]
-BUDGET = {'quick': dict(ob_deadline_s=120, total_s=165), 'thorough': dict(ob_deadline_s=900, total_s=2400)}
+BUDGET = {'quick': dict(ob_deadline_s=120, total_s=165), 'thorough': dict(ob_deadline_s=600, total_s=1500)}
 BOUNDS = {'quick': 'mantissas 1..12 bits at exponents -30..20, and 40..60-bit mantissas (longer than the printing precision) near unit magnitude; dps 1..5; options strip_zeros / min_fixed / max_fixed / show_zero_exponent on five shapes; special values'}
 
 
